@@ -59,6 +59,17 @@ CrashDuringAppend ==
           /\ opened' = FALSE
           /\ UNCHANGED <<durable, entries>>
 
+\* the append is cut short but the process lives on and keeps using the same history object (the disk filled up, a
+\* file size limit was hit, or another writer of the same file died in the middle of ITS append): a torn record lies in
+\* the file and the next append of this object comes right behind it
+TornWhileOpen ==
+          /\ opened /\ next <= MaxAppends
+          /\ \E k \in 0..(Len(Bytes(next)) - 1) :
+               /\ file' = file \o SubSeq(Bytes(next), 1, k)
+               /\ maybe' = IF k = Len(Bytes(next)) - 1 THEN maybe \cup {next} ELSE maybe
+          /\ next' = next + 1
+          /\ UNCHANGED <<durable, entries, opened>>
+
 \* ---- parsing -------------------------------------------------------------
 RECURSIVE Lines(_, _, _)
 \* split f at newline symbols; acc = current line, out = finished lines; an unterminated tail is a line too
@@ -83,7 +94,7 @@ Reopen == /\ entries' = Parse(file)
           /\ opened' = TRUE
           /\ UNCHANGED <<file, next, durable, maybe>>
 
-Next == AppendRec \/ CrashDuringAppend \/ Reopen
+Next == AppendRec \/ CrashDuringAppend \/ TornWhileOpen \/ Reopen
 Spec == Init /\ [][Next]_vars
 
 \* ---- properties ----------------------------------------------------------
